@@ -1604,6 +1604,14 @@ package snaps
 //@      entryOK(F0, F1, e, !update || liveID(idOfHdr(tok(F0, ehdr(F0, e))), nn, d, v, count, runOnly, sk))
 //@ axiom relClean_def: forall F0 Str, F1 Str, update Bool, nn Bool, d Array<Str,Bool>, v Array<Str,Int>, count Int, runOnly Str, sk Slice<Str> {relClean(F0, F1, update, nn, d, v, count, runOnly, sk)}:
 //@      relClean(F0, F1, update, nn, d, v, count, runOnly, sk) == relCleanDef(F0, F1, update, nn, d, v, count, runOnly, sk)
+// reportedAll(F0, E, ...): every stale entry of F0 (not live in the sense of liveID) has its id in the set E
+//@ specfun reportedAll(F0 Str, E Array<Str,Bool>, nn Bool, d Array<Str,Bool>, v Array<Str,Int>, count Int, runOnly Str, sk Slice<Str>) Bool
+//@ specfun reportedAllDef(F0 Str, E Array<Str,Bool>, nn Bool, d Array<Str,Bool>, v Array<Str,Int>, count Int, runOnly Str, sk Slice<Str>) Bool = forall e in 0..nent(F0):
+//@      !liveID(idOfHdr(tok(F0, ehdr(F0, e))), nn, d, v, count, runOnly, sk) ==> E[idOfHdr(tok(F0, ehdr(F0, e)))]
+//@ axiom reportedAll_def: forall F0 Str, E Array<Str,Bool>, nn Bool, d Array<Str,Bool>, v Array<Str,Int>, count Int, runOnly Str, sk Slice<Str> {reportedAll(F0, E, nn, d, v, count, runOnly, sk)}:
+//@      reportedAll(F0, E, nn, d, v, count, runOnly, sk) == reportedAllDef(F0, E, nn, d, v, count, runOnly, sk)
+//@ lemma reported_store @C09 use=lines: forall F0 Str, E Array<Str,Bool>, y Str, nn Bool, d Array<Str,Bool>, v Array<Str,Int>, count Int, runOnly Str, sk Slice<Str> {reportedAll(F0, store(E, y, true), nn, d, v, count, runOnly, sk)}:
+//@      reportedAll(F0, E, nn, d, v, count, runOnly, sk) ==> reportedAll(F0, store(E, y, true), nn, d, v, count, runOnly, sk)
 //@ lemma cap_props @C07,C09,C10 use=lines: forall F Str, e1 Int, T Str, e2 Int {capPart(F, e1, T, eend(F, e1)), ehdr(F, e2)}: entryForm(F) && 0 <= e1 && e1 < nent(F) && 0 <= e2 && e2 < nent(F) && capOK(F, e1, T) ==> lacksT(T, tok(F, ehdr(F, e2))) && noENDt(T) && term(T)
 //@ lemma entry_kept @C07,C09,C10 use=lines: forall F Str, G Str, e Int, T Str {capPart(F, e, T, eend(F, e)), bodyIs(G, tok(F, ehdr(F, e)), T)}: entryForm(F) && 0 <= e && e < nent(F) && capOK(F, e, T) && found(G, tok(F, ehdr(F, e))) && bodyIs(G, tok(F, ehdr(F, e)), T)
 //@      ==> body(G, tok(F, ehdr(F, e))) == body(F, tok(F, ehdr(F, e)))
@@ -1614,7 +1622,7 @@ package snaps
 //@ mode all
 //@ func examineSnaps(registry, used, runOnly, count, update, sort) returns (obs, err)
 //@   mode lines
-//@   option paths-in-loops
+//@   option paths-in-loops, slice-elems
 //@   dead ret2
 //@   requires quiescent && count >= 1 && skippedTests != nil
 //@   requires forall p Str, id Str {registry[p][id]}: has(registry, p) && has(registry[p], id) ==> registry[p][id] >= 0
@@ -1623,7 +1631,9 @@ package snaps
 //@   ensures [noop] !update && !sort ==> fswrites == old(fswrites) && fsc == old(fsc)
 //@   ensures [only_used] forall p Str {fsc[p]}: (forall k in 0..len(used): used[k] != p) ==> fsc[p] == old(fsc)[p]
 //@   ensures [content_kept] forall kk in 0..len(used): uniqAt(used, kk) && entryForm(old(fsc)[used[kk]]) && err == nil
-//@        ==> fsc[used[kk]] == old(fsc)[used[kk]] || relClean(old(fsc)[used[kk]], fsc[used[kk]], update, registry[used[kk]] != nil, dom(registry[used[kk]]), vals(registry[used[kk]]), count, runOnly, skippedTests.values)
+//@        ==> relClean(old(fsc)[used[kk]], fsc[used[kk]], update, registry[used[kk]] != nil, dom(registry[used[kk]]), vals(registry[used[kk]]), count, runOnly, skippedTests.values)
+//@   ensures [report] forall kk in 0..len(used): uniqAt(used, kk) && entryForm(old(fsc)[used[kk]]) && err == nil
+//@        ==> reportedAll(old(fsc)[used[kk]], elems(obs), registry[used[kk]] != nil, dom(registry[used[kk]]), vals(registry[used[kk]]), count, runOnly, skippedTests.values)
 //@   let mapsKept = forall r0 Ref: old(alloc)[r0] ==> domheap("map[string]struct{}")[r0] == old(domheap("map[string]struct{}"))[r0] && valheap("map[string]struct{}")[r0] == old(valheap("map[string]struct{}"))[r0]
 //@         && domheap("map[string]string")[r0] == old(domheap("map[string]string"))[r0] && valheap("map[string]string")[r0] == old(valheap("map[string]string"))[r0]
 //@         && domheap("map[string]int")[r0] == old(domheap("map[string]int"))[r0] && valheap("map[string]int")[r0] == old(valheap("map[string]int"))[r0]
@@ -1637,8 +1647,11 @@ package snaps
 //@   loop 1 invariant [reset] wbuf[data] == "" && (forall id Str {has(tests, id)}: !has(tests, id))
 //@   let unvisited = forall p Str {fsc[p]}: (forall k2 in 0..$idx_1: used[k2] != p) ==> fsc[p] == old(fsc)[p]
 //@   let doneOK = forall kk in 0..$idx_1: uniqAt(used, kk) && entryForm(old(fsc)[used[kk]])
-//@        ==> fsc[used[kk]] == old(fsc)[used[kk]] || relClean(old(fsc)[used[kk]], fsc[used[kk]], update, registry[used[kk]] != nil, dom(registry[used[kk]]), vals(registry[used[kk]]), count, runOnly, skippedTests.values)
+//@        ==> relClean(old(fsc)[used[kk]], fsc[used[kk]], update, registry[used[kk]] != nil, dom(registry[used[kk]]), vals(registry[used[kk]]), count, runOnly, skippedTests.values)
+//@   let repOK = forall kk in 0..$idx_1: uniqAt(used, kk) && entryForm(old(fsc)[used[kk]])
+//@        ==> reportedAll(old(fsc)[used[kk]], elems(obsoleteTests), registry[used[kk]] != nil, dom(registry[used[kk]]), vals(registry[used[kk]]), count, runOnly, skippedTests.values)
 //@   loop 1 invariant [visited] unvisited && doneOK
+//@   loop 1 invariant [report] repOK
 //@   loop 1.1 invariant mapsKept && gate && locals && 0 <= $idx_1 && $idx_1 < len(used) && snapPath == used[$idx_1]
 //@   loop 1.1 invariant f != nil && !old(alloc)[f] && fpath[f] == snapPath && s != nil && !old(alloc)[s] && s != f && s != data && f != data && scunb[s] && scsrc[s] == fsc[snapPath] && 0 <= scpos[s] && scpos[s] <= ntok(scsrc[s])
 //@   loop 1.1 invariant registeredTests != nil
@@ -1647,6 +1660,9 @@ package snaps
 //@   let F = scsrc[s]
 //@   let n = len(testIDs)
 //@   let pos = scpos[s]
+//@   loop 1.1 invariant [report] repOK && ((forall k2 in 0..$idx_1: used[k2] != snapPath) ==> F == old(fsc)[snapPath])
+//@   loop 1.1 invariant [reportcur] entryForm(F) ==> (forall k in 0..n: !(has(registeredTests, testIDs[k]) || skipSpec(testIDs[k], runOnly, skippedTests.values)) ==> elems(obsoleteTests)[testIDs[k]])
+//@       && (!hasDiffs ==> (forall k in 0..n: (has(registeredTests, testIDs[k]) || skipSpec(testIDs[k], runOnly, skippedTests.values))))
 //@   loop 1.1 invariant [data] wbuf[data] == "" || pos == ntok(F)
 //@   loop 1.1 invariant [cap] entryForm(F) ==> 0 <= n && n <= nent(F) && gapLo(F, n) <= pos && pos <= gapHi(F, n)
 //@       && (forall k in 0..n: "[" + testIDs[k] + "]" == tok(F, ehdr(F, k)) && testIDs[k] == idOfHdr(tok(F, ehdr(F, k))) && isLine(testIDs[k]))
@@ -1658,6 +1674,8 @@ package snaps
 //@   loop 1.1.1 invariant registeredTests != nil && len(testIDs) >= 1 && testIDs[len(testIDs) - 1] == testID
 //@   loop 1.1.1 invariant [regs] (forall x Str {has(registeredTests, x)}: has(registeredTests, x) == occKeyU(registry[snapPath] != nil, dom(registry[snapPath]), vals(registry[snapPath]), count, fn.snaps.snapshotOccurrenceFMT, x))
 //@   loop 1.1.1 invariant !update ==> (forall k in 0..len(testIDs) - 1: has(tests, testIDs[k]))
+//@   loop 1.1.1 invariant [reportcur] entryForm(F) ==> (forall k in 0..n: !(has(registeredTests, testIDs[k]) || skipSpec(testIDs[k], runOnly, skippedTests.values)) ==> elems(obsoleteTests)[testIDs[k]])
+//@       && (!hasDiffs ==> (forall k in 0..n: (has(registeredTests, testIDs[k]) || skipSpec(testIDs[k], runOnly, skippedTests.values))))
 //@   loop 1.1.1 invariant [cap] entryForm(F) ==> 1 <= n && n <= nent(F) && ehdr(F, n - 1) < pos && pos <= eend(F, n - 1)
 //@       && (forall k in 0..n: "[" + testIDs[k] + "]" == tok(F, ehdr(F, k)) && testIDs[k] == idOfHdr(tok(F, ehdr(F, k))) && isLine(testIDs[k]))
 //@       && (forall k in 0..n - 1: has(tests, testIDs[k]) ==> capOK(F, k, tests[testIDs[k]]))
